@@ -116,8 +116,6 @@ Theorem roundtrip_json_equiv : forall v, json_equiv (decode (encode v)) v.
 Proof. intros v. unfold json_equiv. rewrite roundtrip. apply norm_idem. Qed.
 
 (* ---- prepare ------------------------------------------------------------------------ *)
-Definition is_register (e : pevent) : bool := match e with ERegister _ _ _ _ => true | _ => false end.
-Definition is_try (e : pevent) : bool := match e with ETry _ _ => true | _ => false end.
 
 Theorem register_first : forall a xid fs r,
   let '(evs, ok) := prepare a true xid fs r in
@@ -136,6 +134,49 @@ Proof.
   - intros _. split; reflexivity.
   - intros b' Hb. discriminate.
   - intros _. split; reflexivity.
+Qed.
+
+(* sequences of prepares on one context: n prepares => n registrations, every try directly after the
+   registration of its own action, as many tries as registrations that succeeded *)
+Lemma prepare_events : forall a xid fs r,
+  fst (prepare a true xid fs r) =
+  ERegister tcc_type (a_name a) xid (app_data a fs) :: match r with ROk b => [ETry (a_name a) b] | _ => [] end.
+Proof. intros a xid fs [b| |]; reflexivity. Qed.
+
+Definition no_try_head (l : list pevent) : Prop := match l with ETry _ _ :: _ => False | _ => True end.
+
+Lemma paired_reg_skip : forall t r x d l, no_try_head l -> paired (ERegister t r x d :: l) = paired l.
+Proof. intros t r x d [|[| ] l] H; simpl in *; try reflexivity. contradiction. Qed.
+
+Lemma seq_no_try_head : forall xid ps, no_try_head (prepare_seq true xid ps).
+Proof.
+  intros xid [|[[a fs] r] ps]; unfold prepare_seq; cbn [flat_map fst snd]; [exact I|].
+  rewrite prepare_events. exact I.
+Qed.
+
+Theorem register_first_seq : forall xid ps,
+  let evs := prepare_seq true xid ps in
+  List.length (filter is_register evs) = List.length ps /\
+  paired evs = true /\
+  List.length (filter is_try evs) = List.length (filter (fun p => reply_ok (snd p)) ps) /\
+  evs = flat_map (fun p =>
+          ERegister tcc_type (a_name (fst (fst p))) xid (app_data (fst (fst p)) (snd (fst p))) ::
+          match snd p with ROk b => [ETry (a_name (fst (fst p))) b] | _ => [] end) ps.
+Proof.
+  intros xid ps. cbv zeta.
+  induction ps as [|[[a fs] r] ps IH]; [repeat split; reflexivity|].
+  destruct IH as (I1 & I2 & I3 & I4).
+  pose proof (seq_no_try_head xid ps) as NH.
+  change (prepare_seq true xid ((a, fs, r) :: ps))
+    with (fst (prepare a true xid fs r) ++ prepare_seq true xid ps).
+  rewrite prepare_events.
+  destruct r as [b| |].
+  - cbn [app filter is_register is_try List.length paired reply_ok flat_map fst snd].
+    rewrite bytes_eqb_refl, I1, I2, I3, <- I4. repeat split; reflexivity.
+  - cbn [app filter is_register is_try List.length reply_ok flat_map fst snd].
+    rewrite (paired_reg_skip _ _ _ _ _ NH), I1, I2, I3, <- I4. repeat split; reflexivity.
+  - cbn [app filter is_register is_try List.length reply_ok flat_map fst snd].
+    rewrite (paired_reg_skip _ _ _ _ _ NH), I1, I2, I3, <- I4. repeat split; reflexivity.
 Qed.
 
 (* what the coordinator sends back is what was registered: the context rebuilt from it is the
